@@ -77,7 +77,7 @@ def run(tier, seed, explicit=None):
     quick = tier == "quick"
     impl_viol = []
     # ---- operator sublanguage: impl vs model (current tables) and impl vs jq's table (property oracle)
-    rc, out, cases, st_ops = V.run_harness("c09", "ops", seed, 400 if quick else 20000, tier,
+    rc, out, cases, st_ops = V.run_harness("c09", "ops", seed, 400 if quick else 60000, tier,
                                            extra=explicit and [e.hex() for e in explicit], name="c09ops")
     if rc != 0:
         c.broken_correspondence("harness-run ops", None, V.tail(out, 40))
@@ -88,7 +88,9 @@ def run(tier, seed, explicit=None):
             smism = V.compare_model(c, exe_m, cases, "c09ops", spec=True)
             sbad = set(l for l, _ in smism)
             for line, verdict in smism[:10]:
-                c.failing_input("operators do not bind as in jq", "ops " + show(line),
+                what = ("String() differs from the printer of the property" if verdict.startswith("(bad print")
+                        else "operators do not bind as in jq")
+                c.failing_input(what, "ops " + show(line),
                                 "implementation: %s; jq's table expects: %s" % (line, verdict))
             for line, verdict in mism[:10]:
                 if line not in sbad:
@@ -96,7 +98,7 @@ def run(tier, seed, explicit=None):
         n_ops = st_ops.get("lines", 0)
     # ---- lexer: impl token streams vs Lexer.v; implementation-only oracles on the full surface grammar
     if not explicit:
-        rc, out, cases, st_lex = V.run_harness("c09", "lex", seed, 1200 if quick else 40000, tier,
+        rc, out, cases, st_lex = V.run_harness("c09", "lex", seed, 1200 if quick else 50000, tier,
                                                extra=["corpus=" + corpus], name="c09lex")
     else:
         rc, out, cases, st_lex = V.run_harness("c09", "one", seed, 0, tier, extra=[e.hex() for e in explicit], name="c09one")
@@ -121,19 +123,41 @@ def run(tier, seed, explicit=None):
     return c.finish(rule, extra_cov=dict(harness_stats=dict(ops=st_ops, lex=st_lex)))
 
 
+def go_unquote(q):
+    """bytes of a Go %q literal (also accepts JSON string syntax)"""
+    assert q[0] == '"' and q[-1] == '"'
+    out, i, body = bytearray(), 0, q[1:-1]
+    simple = {"a": 7, "b": 8, "f": 12, "n": 10, "r": 13, "t": 9, "v": 11, "\\": 92, '"': 34, "'": 39, "/": 47}
+    while i < len(body):
+        ch = body[i]
+        if ch != "\\":
+            out += ch.encode("utf-8")
+            i += 1
+            continue
+        e = body[i + 1]
+        if e in simple:
+            out.append(simple[e]); i += 2
+        elif e == "x":
+            out.append(int(body[i + 2:i + 4], 16)); i += 4
+        elif e == "u":
+            out += chr(int(body[i + 2:i + 6], 16)).encode("utf-8", "surrogatepass"); i += 6
+        elif e == "U":
+            out += chr(int(body[i + 2:i + 10], 16)).encode("utf-8", "surrogatepass"); i += 10
+        elif e in "01234567":
+            out.append(int(body[i + 1:i + 4], 8)); i += 4
+        else:
+            raise ValueError("bad escape in " + q)
+    return bytes(out)
+
+
 def replay(path):
     d = json.load(open(path))
     print(json.dumps(d, indent=1))
     case = d.get("case") or ""
     m = re.match(r'^(\w+) (".*")$', case, flags=re.S)
     if not m:
-        print("no replayable case recorded; re-running the check with the recorded seed")
-        return run("quick", d.get("seed", 1))
-    try:
-        src = json.loads(m.group(2))
-    except Exception:
-        # Go %q text that is not JSON (\x.. escapes): evaluate the escapes
-        src = bytes(m.group(2)[1:-1], "utf-8").decode("unicode_escape")
-    b = src.encode("latin-1", "backslashreplace") if any(ord(ch) > 255 for ch in src) is False and "\\x" in m.group(2) else src.encode("utf-8")
+        print("no replayable source recorded; re-running the check with the recorded seed")
+        return run(d.get("tier", "quick"), d.get("seed", 1))
+    b = go_unquote(m.group(2))
     print("replaying source:", b)
     return run("quick", d.get("seed", 1), explicit=[b])
